@@ -44,15 +44,18 @@ var Alphabet = []string{
 	"NOT", "AND", "OR", "(", ")", "[", "]", "{", "}", "TO", "*",
 }
 
-// TokenSeq decodes index i (mixed radix) into a token sequence of exactly n symbols, joined by single spaces.
-func TokenSeq(i int, n int) string {
+// TokenParts decodes index i (mixed radix) into a token sequence of exactly n symbols.
+func TokenParts(i int, n int) []string {
 	parts := make([]string, n)
 	for k := n - 1; k >= 0; k-- {
 		parts[k] = Alphabet[i%len(Alphabet)]
 		i /= len(Alphabet)
 	}
-	return strings.Join(parts, " ")
+	return parts
 }
+
+// TokenSeq is TokenParts joined by single spaces.
+func TokenSeq(i int, n int) string { return strings.Join(TokenParts(i, n), " ") }
 
 // Pow is len(Alphabet)^n.
 func Pow(n int) int {
